@@ -317,6 +317,12 @@ func checkMain(args []string) int {
 			}
 			j.Opts[k] = v
 		}
+		for k, v := range j.Params {
+			// opt_<name>=v on a job line overrides the option for that job only
+			if strings.HasPrefix(k, "opt_") {
+				j.Opts[strings.TrimPrefix(k, "opt_")] = v
+			}
+		}
 		if verbose {
 			j.Opts["verbose"] = 1
 		}
@@ -610,11 +616,11 @@ func checkMain(args []string) int {
 		"assumptions": sp.Assume,
 	}
 	evDir := filepath.Join(verifRoot, "evidence")
-	if os.Getenv("VF_REPO_SRC") != "" {
-		evDir = os.Getenv("VF_EVIDENCE_DIR")
-		if evDir == "" {
-			evDir = os.TempDir()
-		}
+	if d := os.Getenv("VF_EVIDENCE_DIR"); d != "" {
+		evDir = d
+	} else if os.Getenv("VF_REPO_SRC") != "" || onlyRe != nil {
+		// seeded-change trials and partial (-only) runs never overwrite the committed evidence
+		evDir = filepath.Join(os.TempDir(), "vf-partial-evidence")
 	}
 	os.MkdirAll(evDir, 0755)
 	b, _ := json.MarshalIndent(ev, "", " ")
